@@ -44,36 +44,62 @@ SIG_INITIAL = "clone-differs-initially"
 
 
 class Run:
-    """the interleaved history and the two control histories of one case"""
+    """one case: the description, the real system, how to build a fresh identical simulation"""
 
     def __init__(self, line: str):
         f = line.split()
         if len(f) < 2 or f[0] != "heap" or f[1] != "run":
             raise su.Malformed(line)
-        self.sysd, self.spec, self.pre, self.trace, self.ops, self.sys_text = su.parse_run(f[2:])
-        self.op_texts = su._split(f[6], ";")
-        su.check_run(self.sysd, self.spec)
-        self.tbs, self.names = su.make_system(self.sys_text, tuple(g[0] for g in self.spec[1]))
+        self.sysd, self.spec, self.pre, self.flags, self.events, self.sys_text = su.parse_run(f[2:])
+        self.event_texts = su._split(f[6], ";")
+        su.check_run(self.sysd, self.spec, self.events)
+        self.tbs, self.names, self.vtypes = su.make_system(self.sys_text, tuple(g[0] for g in self.spec[1]))
+        self.salt = sum(map(ord, line)) % 89
+
+    def call(self, sim, op, style):
+        return su.apply_op(sim, self.names, self.vtypes, op, style, self.tbs)
 
     def fresh(self):
         sim = su.build_simulation(self.tbs, self.spec, self.names)
-        for op in self.pre:
-            su.apply_op(sim, self.names, op)
+        for k, op in enumerate(self.pre):
+            self.call(sim, op, k + self.salt)
         return sim
+
+    def replay(self, sim, lineage):
+        """the calls a simulation inherited from its ancestors and made itself, on a fresh simulation"""
+        import numpy
+        for item in lineage:
+            if item[0] == "call":
+                self.call(sim, item[1], item[2])
+            elif item[0] == "array":
+                try:
+                    sim.set_input(item[1], su.real_period(item[2]), numpy.array(item[3], copy=True))
+                except Exception:      # noqa: BLE001
+                    pass
+            else:                       # the clone() it was born from resets trace / debug
+                sim.debug = item[2]
+                sim.trace = item[1]
+
+
+def config(sim) -> tuple:
+    mc = sim.memory_config
+    return (bool(sim.opt_out_cache), int(sim.max_spiral_loops),
+            None if mc is None else (float(mc.max_memory_occupation), sorted(mc.priority_variables), sorted(mc.variables_to_drop)))
 
 
 def structure(sim) -> dict:
-    """entity structure with every role-dependent read: the role of each member, `nb_persons(role)` and
-    `persons.has_role(role)` for every role of every group entity"""
+    """entity structure with every structure-dependent read: counts, ids, memberships, positions, the ordering map,
+    the role of each member, `nb_persons(role)` and `persons.has_role(role)` for every role of every group entity"""
     out = {}
     for key, pop in sim.populations.items():
         mei = getattr(pop, "members_entity_id", None)
-        roles = None
+        extra = None
         if mei is not None:
             r, counts = su.role_reads(pop)
             has = [[bool(x) for x in sim.persons.has_role(su.role_object(pop.entity, role))] for role in su.STD_ROLES]
-            roles = (r, counts, has)
-        out[key] = (pop.count, [str(i) for i in pop.ids], None if mei is None else [int(g) for g in mei], roles)
+            extra = (r, counts, has, [int(x) for x in pop.members_position], [int(x) for x in pop.ordered_members_map],
+                     [int(x) for x in pop.nb_persons()])
+        out[key] = (pop.count, [str(i) for i in pop.ids], None if mei is None else [int(g) for g in mei], extra)
     return out
 
 
@@ -93,15 +119,17 @@ def ownership(orig, clone):
             return SIG_MEMBERS, f"clone.populations[{key}].members is {which}, not clone.persons"
     if clone.persons is not clone.populations.get("person"):
         return SIG_POP, "clone.persons is not clone.populations['person']"
+    if clone.tracer is orig.tracer:
+        return "clone-shares-tracer", "clone.tracer is the original's tracer"
     return None
 
 
-def sharing(orig, clone) -> dict:
-    """which stores the two simulations share right after clone() — only used to *name* an interference"""
+def sharing(orig, clone, acc: dict) -> None:
+    """which stores two simulations share right after clone() — only used to *name* an interference"""
     import os
 
-    out = {"memory": set(), "disk": set(), "inval": clone.invalidated_caches is orig.invalidated_caches,
-           "dir": (orig._data_storage_dir is not None and orig._data_storage_dir == clone._data_storage_dir)}
+    acc["inval"] = acc["inval"] or clone.invalidated_caches is orig.invalidated_caches
+    acc["dir"] = acc["dir"] or (orig._data_storage_dir is not None and orig._data_storage_dir == clone._data_storage_dir)
     for key, pop in clone.populations.items():
         opop = orig.populations.get(key)
         for name, h in pop._holders.items():
@@ -109,12 +137,11 @@ def sharing(orig, clone) -> dict:
             if oh is None:
                 continue
             if h._memory_storage is oh._memory_storage or h._memory_storage._arrays is oh._memory_storage._arrays:
-                out["memory"].add(su.var_index(name))
+                acc["memory"].add(su.var_index(name))
             if h._disk_storage is not None and oh._disk_storage is not None and (
                     h._disk_storage is oh._disk_storage
                     or os.path.abspath(h._disk_storage.storage_dir) == os.path.abspath(oh._disk_storage.storage_dir)):
-                out["disk"].add(su.var_index(name))
-    return out
+                acc["disk"].add(su.var_index(name))
 
 
 def roots(sim):
@@ -125,8 +152,9 @@ def roots(sim):
     return [(su.var_index(n.name), su.show_period(n.period)) for n in sim.tracer.trees]
 
 
-def snapshot(sim) -> dict:
-    return {"values": su.known_values(sim), "trace": bool(sim.trace), "roots": roots(sim), "structure": structure(sim)}
+def snapshot(sim, vtypes) -> dict:
+    return {"values": su.known_values(sim, vtypes), "trace": bool(sim.trace), "roots": roots(sim),
+            "stack": len(sim.tracer.stack), "structure": structure(sim), "config": config(sim), "debug": bool(sim.debug)}
 
 
 def first_difference(a: dict, b: dict):
@@ -134,8 +162,9 @@ def first_difference(a: dict, b: dict):
     for k in sorted(set(a["values"]) | set(b["values"])):
         if a["values"].get(k) != b["values"].get(k):
             return k[0], f"v{k[0]}@{k[1]}: {a['values'].get(k, 'unknown')} instead of {b['values'].get(k, 'unknown')}"
-    if a["trace"] != b["trace"] or a["roots"] != b["roots"]:
-        return None, f"trace {a['trace']}/{a['roots']} instead of {b['trace']}/{b['roots']}"
+    for key in ("trace", "roots", "stack", "debug", "config"):
+        if a.get(key) != b.get(key):
+            return None, f"{key} {a.get(key)} instead of {b.get(key)}"
     if a.get("structure") != b.get("structure"):
         return None, f"entity structure / roles {a['structure']} instead of {b['structure']}"
     return None
@@ -149,78 +178,106 @@ def has_disk(sim, v: int) -> bool:
     return False
 
 
+def sim_name(i: int) -> str:
+    return "original" if i == 0 else "clone" if i == 1 else f"clone#{i}"
+
+
 def execute(line: str):
     """-> (impl text, oracle verdict)"""
+    import numpy
+
     run = Run(line)
-    names = run.names
-    sims = []
+    vt = run.vtypes
+    everything = []
     try:
-        orig = run.fresh()
-        sims.append(orig)
-        before = snapshot(orig)
-        before_structure = structure(orig)
-        clone = orig.clone(trace=run.trace)
-        sims.append(clone)
-        parts = [su.alias_graph(orig, clone) + ";O" + su.observe(orig) + ";C" + su.observe(clone)]
+        sims = [run.fresh()]
+        controls = [run.fresh()]
+        lineages = [[]]
+        everything += sims + controls
+        shared = {"memory": set(), "disk": set(), "inval": False, "dir": False}
         verdict = None
-
-        # immediately after cloning
-        if snapshot(orig)["values"] != before["values"] or structure(orig) != before_structure:
-            verdict = (SIG_INITIAL, "clone() changed the original")
-        elif su.known_values(clone) != su.known_values(orig):
-            d = first_difference({"values": su.known_values(clone), "trace": 0, "roots": 0},
-                                 {"values": su.known_values(orig), "trace": 0, "roots": 0})
-            verdict = (SIG_INITIAL, f"right after clone() the clone holds {d[1]}")
-        elif structure(clone) != structure(orig):
-            sc, so = structure(clone), structure(orig)
-            key = next(k for k in sorted(set(sc) | set(so)) if sc.get(k) != so.get(k))
-            verdict = (SIG_INITIAL, f"right after clone() the entity structure of {key} (count, ids, memberships, (roles, "
-                                    f"nb_persons per role, has_role per role)) differs: clone {sc.get(key)} original {so.get(key)}")
-        verdict = verdict or ownership(orig, clone)
-        shared = sharing(orig, clone)
-
-        # the two control histories: each side's own operations, alone, on a fresh identical simulation
-        alone_o = run.fresh()
-        sims.append(alone_o)
-        alone_c = run.fresh()
-        sims.append(alone_c)
-        alone_c.trace = run.trace            # `clone(trace=…)` installs a new tracer
-        spiral_seen = False
-        for (side, op), text in zip(run.ops, run.op_texts):
-            sim, alone = (orig, alone_o) if side == "o" else (clone, alone_c)
-            call = ("clone" if side == "c" else "original") + "." + text[1:]
-            r = su.apply_op(sim, names, op)
-            r_alone = su.apply_op(alone, names, op)
-            parts.append(r + ";O" + su.observe(orig) + ";C" + su.observe(clone))
+        parts = []
+        events = [(0, ("n",) + run.flags)] + list(run.events)
+        texts = ["on:" + "".join("1" if x else "0" for x in run.flags)] + run.event_texts
+        for k, ((side, ev), text) in enumerate(zip(events, texts)):
+            sim = sims[side]
+            call = f"{sim_name(side)}.{text[1:]}"
+            style = k * 5 + 3 * side + run.salt
+            touched_var = ev[1] if ev[0] in "skadgr" else None
+            if ev[0] == "n":
+                before = snapshot(sim, vt)
+                new = sim.clone(debug=ev[2], trace=ev[1])
+                everything.append(new)
+                result = su.alias_graph(sim, new)
+                if verdict is None:
+                    # immediately after cloning
+                    after = snapshot(sim, vt)
+                    if first_difference(after, before) is not None:
+                        verdict = (SIG_INITIAL, f"{call} changed the simulation it copies: {first_difference(after, before)[1]}")
+                    else:
+                        cs = snapshot(new, vt)
+                        for key in ("values", "structure", "config"):
+                            if cs[key] != after[key]:
+                                d = first_difference({**after, key: cs[key]}, after)
+                                verdict = (SIG_INITIAL, f"right after {call} the clone holds {d[1]}")
+                                break
+                        if verdict is None and (bool(new.debug), bool(new.trace)) != (ev[2], ev[1]):
+                            verdict = (SIG_INITIAL, f"right after {call} debug/trace are {new.debug}/{new.trace}")
+                        if verdict is None and len(new.tracer.stack) != 0:
+                            verdict = (SIG_INITIAL, f"right after {call} the clone's tracer has a non-empty stack")
+                    verdict = verdict or ownership(sim, new)
+                sharing(sim, new, shared)
+                lineage = list(lineages[side]) + [("born", ev[1], ev[2])]
+                control = run.fresh()
+                run.replay(control, lineage)
+                everything.append(control)
+                sims.append(new)
+                controls.append(control)
+                lineages.append(lineage)
+                r_alone = None
+            elif ev[0] == "r":
+                src = sims[ev[3]]
+                try:
+                    a = src.get_array(run.names[ev[4]], su.real_period(ev[5])) if ev[4] < len(run.names) else None
+                except Exception:      # noqa: BLE001
+                    a = None
+                result = su.apply_set_from(sim, src, run.names, vt, ev)
+                r_alone = result
+                if a is not None:
+                    name = run.names[ev[1]] if ev[1] < len(run.names) else "v_unknown"
+                    item = ("array", name, ev[2], numpy.array(a, copy=True))
+                    lineages[side].append(item)
+                    run.replay(controls[side], [item])
+            else:
+                result = run.call(sim, ev, style)
+                r_alone = run.call(controls[side], ev, style)
+                lineages[side].append(("call", ev, style))
+            parts.append(result + ";" + ";".join(su.observe(x, vt) for x in sims))
             if verdict is not None:
                 continue
             bad = None
-            if r != r_alone:
-                bad = (side, op[1] if op[0] in "skad" else None,
-                       f"{call} returned {r}, alone it returns {r_alone}")
+            if r_alone is not None and result != r_alone:
+                bad = (side, touched_var, f"{call} returned {result}, alone it returns {r_alone}")
             else:
-                for s2, (x, y) in (("o", (orig, alone_o)), ("c", (clone, alone_c))):
-                    d = first_difference(snapshot(x), snapshot(y))
+                for j, (x, y) in enumerate(zip(sims, controls)):
+                    d = first_difference(snapshot(x, vt), snapshot(y, vt))
                     if d is not None:
-                        who = "original" if s2 == "o" else "clone"
-                        bad = (s2, d[0], f"after {call}: {who} holds {d[1]} "
-                                         f"(the value when the {who} is operated alone)")
+                        bad = (j, d[0], f"after {call}: {sim_name(j)} holds {d[1]} (the value when it is operated alone)")
                         break
             if bad is not None:
                 v = bad[1]
                 if v is not None and v in shared["memory"]:
                     sig = SIG_MEMORY
-                elif (v is not None and (v in shared["disk"] or (shared["dir"] and (has_disk(orig, v) or has_disk(clone, v))))) \
-                        or (v is None and shared["dir"]):
+                elif v is not None and (v in shared["disk"] or (shared["dir"] and any(has_disk(x, v) for x in sims))):
                     sig = SIG_DISK
-                elif shared["inval"]:
+                elif v is not None and shared["inval"]:
                     sig = SIG_INVAL
                 else:
-                    sig = "interference:" + ("original-affected" if bad[0] == "o" else "clone-affected")
+                    sig = "interference:" + ("acting-simulation" if bad[0] == side else "other-simulation-affected")
                 verdict = (sig, bad[2])
         return "|".join(parts), verdict
     finally:
-        su.dispose(*sims)
+        su.dispose(*everything)
 
 
 _LAST: dict = {}
